@@ -199,6 +199,12 @@ pub trait IntResMixed {
 /// A skipped method between two exported ones: the slots around it must stay right.
 #[cglue_trait]
 pub trait Attrs {
+    /// associated type replaced by a fixed C type, converted by a closure on the way out
+    #[wrap_with(u64)]
+    #[return_wrap(|ret| Into::<u64>::into(ret))]
+    type Num: Into<u64>;
+    fn at_num(&self) -> Self::Num;
+    fn at_num_mut(&mut self, salt: u32) -> Self::Num;
     fn at_first(&self, v: u64) -> u64;
     /// generic method with a default body: not exported (it has no slot), the opaque object runs
     /// this body; everything declared after it must still get its slot and its override
@@ -762,6 +768,15 @@ macro_rules! implementor {
         }
 
         impl Attrs for $name {
+            type Num = u32;
+            fn at_num(&self) -> u32 {
+                self.core.enter("at_num", 0, &[]);
+                (self.core.get() >> 7) as u32
+            }
+            fn at_num_mut(&mut self, salt: u32) -> u32 {
+                self.core.enter("at_num_mut", salt as u64, &[]);
+                self.core.mix(salt as u64 ^ 0x4E) as u32
+            }
             fn at_first(&self, v: u64) -> u64 {
                 self.core.enter("at_first", v, &[]);
                 self.core.mix(v ^ 0xA1)
